@@ -21,6 +21,7 @@ structure StepInvariant (W : Op → Prop) (I : State → Prop) : Prop where
   txn : Family (fun k f => ∀ s c, I s → I (withNewCas s c (liftRow k f)).1)
   wmeta : ∀ s c k old new exp xs body j d, W (.wmeta c k old new exp xs body j d) → I s → I (opWriteWithMeta s c k old new exp xs body j d).1
   draw : ∀ s, I s → I { s with hlc := hlcNow s.hlc s.phys }
+  restart : ∀ s p, I s → I (reopen s p)
   purge : ∀ s, I s → I (opPurge s).1
   arm : ∀ s e, I s → I { s with expNext := schedAtOrBefore s.expNext e }
   fire : ∀ s, I s → I (opFireExpiry s)
@@ -190,6 +191,7 @@ theorem step_inv (s : State) (op : Op) (hwf : W op) (hs : I s) : I (step s op).1
   | keys c => exact hs
   | expState => exact hs
   | draw => exact hI.draw s hs
+  | restart p => exact hI.restart s p hs
 
 /-- Every state reachable from a state satisfying the invariant satisfies it: induction over any operation list. -/
 theorem run_inv (ops : List Op) : ∀ (s : State), (∀ op ∈ ops, W op) → I s → I (run s ops).1 := by
@@ -288,6 +290,7 @@ theorem RowInvariant.step {P : Row → Prop} (hP : RowInvariant P) : StepInvaria
   wmeta := fun s c k old new exp xs body j d hwf hs => opWriteWithMeta_stateAll hP s c k old new exp xs body j d hwf hs
   purge := opPurge_stateAll
   draw := fun s hs => StateAll.of_colls_eq rfl hs
+  restart := fun s p hs => StateAll.of_colls_eq rfl hs
   arm := fun s e hs => StateAll.of_colls_eq rfl hs
   fire := fun s hs => fire_of_txn (fun k s c hs => opWithNewCas_row s c k _ (hP.fam.remove k none) hs)
     (fun s e hs => StateAll.of_colls_eq rfl hs) s hs
